@@ -68,6 +68,9 @@ def build(r):
     if t == 'opaque':
         from . import faults
         return faults.OpaqueObj(r[1])
+    if t == 'reprraises':
+        from . import faults
+        return faults.ReprRaises(r[1])
     if t == 'flaky':
         from . import faults
         return faults.Flaky(r[1])
